@@ -8,6 +8,8 @@ import (
 	"strings"
 
 	"golang.org/x/tools/go/packages"
+
+	"golang.org/x/tools/go/ssa"
 )
 
 func init() { register("C07", checkC07) }
@@ -103,6 +105,41 @@ func checkC07(w *World, r *Report) {
 
 	r.Rule("R07.9", "goroutine confinement: the unlocked string interner and the lexer fields pos/start/width/bracketDepth are touched only by the lexer goroutine's code, lastPos only by the parser's; the item channel is the only thing the two sides share", 6)
 	r.guard("R07.9", func() { c07Confinement(w, r) })
+
+	r.Rule("R07.10", "the located error text is built from constant formats: in Tree.errorf every fmt format argument is a constant or the function's own format parameter handed on with its own arguments — the name of the input and the message are data, never part of a format (a '%' in a file name must not garble the location)", 2)
+	r.guard("R07.10", func() {
+		f := w.SSAFunc(w.Method("parse", "Tree", "errorf"))
+		if f == nil {
+			panic(undecided{"Tree.errorf"})
+		}
+		n := 0
+		for _, b := range f.Blocks {
+			for _, in := range b.Instrs {
+				c, ok := in.(*ssa.Call)
+				if !ok || c.Call.StaticCallee() == nil {
+					continue
+				}
+				name := c.Call.StaticCallee().String()
+				if name != "fmt.Sprintf" && name != "fmt.Errorf" {
+					continue
+				}
+				n++
+				fa := c.Call.Args[0]
+				_, isConst := fa.(*ssa.Const)
+				isParam := false
+				if p, ok := fa.(*ssa.Parameter); ok && p == f.Params[1] {
+					// handed on together with the variadic arguments of errorf itself
+					if len(c.Call.Args) == 2 && c.Call.Args[1] == ssa.Value(f.Params[2]) {
+						isParam = true
+					}
+				}
+				r.Check(isConst || isParam, "R07.10", fmt.Sprintf("Tree.errorf: %s #%d", name, n), c.Pos(), "constant format (or errorf's own format with its own arguments)", "the format handed to "+name+" is computed from data (`"+fa.String()+"`): a '%' in the input name or message is interpreted as a verb, the location is garbled and the real arguments are lost")
+			}
+		}
+		if n == 0 {
+			panic(undecided{"Tree.errorf formats nothing"})
+		}
+	})
 
 	r.Rule("R07.6", "a nil error comes with a root: the success return of Tree.Parse follows parse(), which assigns Root from stmt(), and stmt returns the node it built", 3)
 	r.guard("R07.6", func() { c07Root(w, r) })
